@@ -599,3 +599,314 @@ Proof.
   { revert Hin. apply (ileave_g_has_read _ ca cb); intros _; split; reflexivity. }
   destruct (se_seen e) as [kr|]; [|congruence]. exists kr. auto.
 Qed.
+
+(* ================================================================== Part 3: probe / mount codes *)
+Definition mo_instr (i : instr) : bool :=
+  match i with IProbe | IMountIf _ _ | IFail => true | _ => false end.
+Definition mshape (c : list instr) : bool := forallb mo_instr c.
+Definition targets (c : list instr) : list bytes :=
+  flat_map (fun i => match i with IMountIf t _ => [t] | _ => [] end) c.
+(* the targets the code gets to: those before the first IFail *)
+Fixpoint rtargets (c : list instr) : list bytes :=
+  match c with
+  | [] => []
+  | IFail :: _ => []
+  | IMountIf t _ :: r => t :: rtargets r
+  | _ :: r => rtargets r
+  end.
+(* the targets decided on the present cache: those before the next IProbe *)
+Fixpoint exposed (c : list instr) : list bytes :=
+  match c with IMountIf t _ :: r => t :: exposed r | _ => [] end.
+Definition skippable (cache : ktab) (i : instr) : bool :=
+  match i with IMountIf t _ => mem_path t cache | _ => false end.
+Definition rtp (p : proc) : list bytes := if pc_failed p then [] else rtargets (pc_code p).
+
+Lemma targets_app a b : targets (a ++ b) = targets a ++ targets b.
+Proof. unfold targets. apply flat_map_app. Qed.
+Lemma rtargets_skip cache sk rest : forallb (skippable cache) sk = true ->
+  rtargets (sk ++ rest) = targets sk ++ rtargets rest.
+Proof.
+  induction sk as [|i sk IH]; cbn [forallb app]; [reflexivity|].
+  intros H. apply andb_true_iff in H as [H1 H2]. destruct i; try discriminate.
+  cbn. f_equal. now apply IH.
+Qed.
+Lemma exposed_skip cache sk rest : forallb (skippable cache) sk = true ->
+  exposed (sk ++ rest) = targets sk ++ exposed rest.
+Proof.
+  induction sk as [|i sk IH]; cbn [forallb app]; [reflexivity|].
+  intros H. apply andb_true_iff in H as [H1 H2]. destruct i; try discriminate.
+  cbn. f_equal. now apply IH.
+Qed.
+Lemma skip_in_cache cache sk : forallb (skippable cache) sk = true ->
+  forall t, In t (targets sk) -> In t cache.
+Proof.
+  induction sk as [|i sk IH]; cbn [forallb]; [contradiction|].
+  intros H. apply andb_true_iff in H as [H1 H2]. destruct i; try discriminate.
+  cbn. intros t [<-|Ht]; [now apply mem_path_In|now apply IH].
+Qed.
+Lemma mshape_app a b : mshape (a ++ b) = mshape a && mshape b.
+Proof. unfold mshape. apply forallb_app. Qed.
+Lemma rtargets_incl_targets c : incl (rtargets c) (targets c).
+Proof.
+  induction c as [|i c IH]; [intros x []|]. destruct i; cbn; try exact IH.
+  - intros x [<-|H]; [now left|right; now apply IH].
+  - intros x [].
+Qed.
+Lemma exposed_incl_targets c : incl (exposed c) (targets c).
+Proof.
+  induction c as [|i c IH]; [intros x []|]. destruct i; cbn; try apply incl_nil_l.
+  intros x [<-|H]; [now left|right; now apply IH].
+Qed.
+
+(* one step of a process whose code only probes and mounts *)
+Inductive mo_step (k : ktab) (p : proc) (k' : ktab) (p' : proc) : Prop :=
+| MoIdle sk rest : pc_code p = sk ++ rest -> forallb (skippable (pc_cache p)) sk = true ->
+    k' = k -> p' = MkProc rest (pc_cache p) false (pc_calls p) -> mo_step k p k' p'
+| MoProbe sk r : pc_code p = sk ++ IProbe :: r -> forallb (skippable (pc_cache p)) sk = true ->
+    k' = k -> p' = MkProc r k false (pc_calls p ++ [KProbe]) -> mo_step k p k' p'
+| MoMount sk t rp r : pc_code p = sk ++ IMountIf t rp :: r -> forallb (skippable (pc_cache p)) sk = true ->
+    mem_path t (pc_cache p) = false ->
+    k' = k ++ [t] -> p' = MkProc (if rp then IProbe :: r else r) (pc_cache p) false (pc_calls p ++ [KMount t]) ->
+    mo_step k p k' p'
+| MoFail sk r : pc_code p = sk ++ IFail :: r -> forallb (skippable (pc_cache p)) sk = true ->
+    k' = k -> p' = MkProc [] (pc_cache p) true (pc_calls p) -> mo_step k p k' p'.
+
+Lemma step_proc_mo fuel : forall k p, pc_failed p = false -> mshape (pc_code p) = true ->
+  mo_step k p (fst (fst (step_proc fuel k p))) (snd (fst (step_proc fuel k p))).
+Proof.
+  induction fuel as [|f IH]; intros k p HF HS.
+  - destruct p as [code cache failed calls]. cbn in HF. subst failed. cbn [step_proc fst snd].
+    now apply (MoIdle _ _ _ _ [] code).
+  - destruct p as [code cache failed calls]. cbn [pc_failed pc_code] in HF, HS. subst failed.
+    cbn [step_proc pc_failed pc_code pc_cache pc_calls].
+    destruct code as [|i r]; [now apply (MoIdle _ _ _ _ [] [])|].
+    cbn [mshape forallb] in HS. apply andb_true_iff in HS as [Hi HS].
+    destruct i as [|t rp|bld|t|]; try discriminate.
+    + now apply (MoProbe _ _ _ _ [] r).
+    + destruct (mem_path t cache) eqn:M.
+      * specialize (IH k (MkProc r cache false calls) eq_refl HS).
+        set (res := step_proc f k (MkProc r cache false calls)) in *. clearbody res.
+        cbn [pc_code pc_cache pc_calls] in *.
+        destruct IH as [sk rest Hc Hs Hk Hp|sk r' Hc Hs Hk Hp|sk t' rp' r' Hc Hs Hm Hk Hp|sk r' Hc Hs Hk Hp];
+          cbn [pc_code pc_cache pc_calls] in *.
+        -- apply (MoIdle _ _ _ _ (IMountIf t rp :: sk) rest); cbn [pc_code pc_cache pc_calls forallb skippable app]; auto.
+           ++ now rewrite Hc. ++ now rewrite M.
+        -- apply (MoProbe _ _ _ _ (IMountIf t rp :: sk) r'); cbn [pc_code pc_cache pc_calls forallb skippable app]; auto.
+           ++ now rewrite Hc. ++ now rewrite M.
+        -- apply (MoMount _ _ _ _ (IMountIf t rp :: sk) t' rp' r'); cbn [pc_code pc_cache pc_calls forallb skippable app]; auto.
+           ++ now rewrite Hc. ++ now rewrite M.
+        -- apply (MoFail _ _ _ _ (IMountIf t rp :: sk) r'); cbn [pc_code pc_cache pc_calls forallb skippable app]; auto.
+           ++ now rewrite Hc. ++ now rewrite M.
+      * now apply (MoMount _ _ _ _ [] t rp r).
+    + now apply (MoFail _ _ _ _ [] r).
+Qed.
+
+Lemma finished_false p : finished p = false -> pc_failed p = false.
+Proof. unfold finished. destruct (pc_failed p); [discriminate|reflexivity]. Qed.
+Lemma finished_rtp p : finished p = true -> rtp p = [].
+Proof.
+  unfold finished, rtp. destruct (pc_failed p); [reflexivity|]. cbn [orb].
+  destruct (pc_code p); [reflexivity|discriminate].
+Qed.
+Lemma unfinished_rtp p : finished p = false -> rtp p = rtargets (pc_code p).
+Proof. intros F. unfold rtp. now rewrite (finished_false p F). Qed.
+
+Lemma step1_mo k p : finished p = false -> mshape (pc_code p) = true -> mo_step k p (nk k p) (np k p).
+Proof. intros F HS. apply step_proc_mo; [now apply finished_false|exact HS]. Qed.
+
+(* consequences for one step *)
+Lemma mo_step_shape k p k' p' : mshape (pc_code p) = true -> mo_step k p k' p' -> mshape (pc_code p') = true.
+Proof.
+  intros HS [sk rest Hc Hs Hk Hp|sk r Hc Hs Hk Hp|sk t rp r Hc Hs Hm Hk Hp|sk r Hc Hs Hk Hp];
+    subst p'; cbn [pc_code]; rewrite Hc, mshape_app in HS; apply andb_true_iff in HS as [_ HS]; auto.
+  destruct rp; cbn in *; auto.
+Qed.
+Lemma mo_step_grow k p k' p' : mo_step k p k' p' -> incl k k'.
+Proof.
+  intros [sk rest Hc Hs Hk Hp|sk r Hc Hs Hk Hp|sk t rp r Hc Hs Hm Hk Hp|sk r Hc Hs Hk Hp]; subst k';
+    try apply incl_refl. now apply incl_appl, incl_refl.
+Qed.
+Lemma mo_step_added k p k' p' : mo_step k p k' p' ->
+  forall x, In x k' -> In x k \/ In x (rtargets (pc_code p)).
+Proof.
+  intros [sk rest Hc Hs Hk Hp|sk r Hc Hs Hk Hp|sk t rp r Hc Hs Hm Hk Hp|sk r Hc Hs Hk Hp] x Hx; subst k'; auto.
+  apply in_app_or in Hx as [Hx|[<-|[]]]; [now left|right].
+  rewrite Hc, (rtargets_skip _ _ _ Hs). apply in_or_app. right. now left.
+Qed.
+Lemma mo_step_rtp k p k' p' : mo_step k p k' p' -> incl (rtp p') (rtargets (pc_code p)).
+Proof.
+  intros [sk rest Hc Hs Hk Hp|sk r Hc Hs Hk Hp|sk t rp r Hc Hs Hm Hk Hp|sk r Hc Hs Hk Hp]; subst p';
+    unfold rtp; cbn [pc_failed pc_code]; rewrite Hc, (rtargets_skip _ _ _ Hs); try (intros x []).
+  - now apply incl_appr, incl_refl.
+  - apply incl_appr. cbn [rtargets]. apply incl_refl.
+  - apply incl_appr. cbn [rtargets]. destruct rp; cbn [rtargets]; now apply incl_tl, incl_refl.
+Qed.
+Lemma mo_step_cache k p k' p' : incl (pc_cache p) k -> mo_step k p k' p' -> incl (pc_cache p') k'.
+Proof.
+  intros HI [sk rest Hc Hs Hk Hp|sk r Hc Hs Hk Hp|sk t rp r Hc Hs Hm Hk Hp|sk r Hc Hs Hk Hp];
+    subst p' k'; cbn [pc_cache]; auto using incl_refl. now apply incl_appl.
+Qed.
+Lemma mo_step_reached k p k' p' : incl (pc_cache p) k -> mo_step k p k' p' ->
+  forall t, In t (rtargets (pc_code p)) -> In t k' \/ In t (rtp p').
+Proof.
+  intros HI [sk rest Hc Hs Hk Hp|sk r Hc Hs Hk Hp|sk t rp r Hc Hs Hm Hk Hp|sk r Hc Hs Hk Hp] x;
+    subst p' k'; unfold rtp; cbn [pc_failed pc_code]; rewrite Hc, (rtargets_skip _ _ _ Hs);
+    intros Hx; apply in_app_or in Hx as [Hx|Hx];
+    try (left; try apply in_or_app; try left; apply HI; eapply skip_in_cache; eassumption).
+  - now right.
+  - now right.
+  - cbn [rtargets] in Hx. destruct Hx as [<-|Hx].
+    + left. apply in_or_app. right. now left.
+    + right. destruct rp; exact Hx.
+  - cbn [rtargets] in Hx. contradiction.
+Qed.
+
+Lemma nodup_snoc (l : list bytes) x : NoDup l -> ~ In x l -> NoDup (l ++ [x]).
+Proof.
+  induction 1 as [|y l Hy ND IH]; cbn; intros Hx; [repeat constructor; auto|].
+  constructor.
+  - intros H. apply in_app_or in H as [H|[<-|[]]]; [contradiction|]. apply Hx. now left.
+  - apply IH. intros H. apply Hx. now right.
+Qed.
+
+Lemma mo_step_landed k p k' p' : mo_step k p k' p' ->
+  landed_on_mounted k p p' = false -> NoDup k -> NoDup k'.
+Proof.
+  intros [sk rest Hc Hs Hk Hp|sk r Hc Hs Hk Hp|sk t rp r Hc Hs Hm Hk Hp|sk r Hc Hs Hk Hp] HL ND; subst k'; auto.
+  subst p'. unfold landed_on_mounted in HL. cbn [pc_calls] in HL. rewrite skipn_app_exact in HL.
+  apply nodup_snoc; [exact ND|]. now apply mem_path_false.
+Qed.
+
+(* the invariant of a process running alone *)
+Definition solo_inv (k : ktab) (p : proc) : Prop :=
+  NoDup k /\ NoDup (targets (pc_code p)) /\
+  forall t, In t (exposed (pc_code p)) -> In t k -> In t (pc_cache p).
+
+Lemma nodup_app_r {A} (a b : list A) : NoDup (a ++ b) -> NoDup b.
+Proof. induction a as [|x a IH]; cbn; auto. intros H. inversion H; auto. Qed.
+
+Lemma mo_step_solo k p k' p' : mo_step k p k' p' -> solo_inv k p ->
+  solo_inv k' p' /\ landed_on_mounted k p p' = false.
+Proof.
+  intros [sk rest Hc Hs Hk Hp|sk r Hc Hs Hk Hp|sk t rp r Hc Hs Hm Hk Hp|sk r Hc Hs Hk Hp] (ND & NT & HE);
+    subst k' p'; rewrite Hc in NT, HE; rewrite targets_app in NT; rewrite (exposed_skip _ _ _ Hs) in HE;
+    unfold solo_inv, landed_on_mounted; cbn [pc_code pc_cache pc_calls];
+    rewrite ?skipn_app_exact, ?skipn_exact.
+  - split; [|reflexivity]. split; [exact ND|]. split; [now apply nodup_app_r in NT|].
+    intros t Ht. apply HE. apply in_or_app. now right.
+  - split; [|reflexivity]. split; [exact ND|]. split; [now apply nodup_app_r in NT|].
+    cbn. auto.
+  - apply nodup_app_r in NT. cbn in NT. inversion NT as [|? ? Hnt NT']; subst.
+    assert (Hk : ~ In t k).
+    { intros Hk. apply mem_path_false in Hm. apply Hm. apply HE; [|exact Hk].
+      apply in_or_app. right. now left. }
+    split; [|now apply mem_path_false].
+    split; [now apply nodup_snoc|]. split; [now destruct rp|].
+    destruct rp; [intros ? []|]. intros t' Ht' Hin.
+    apply in_app_or in Hin as [Hin|[<-|[]]].
+    + apply HE; [|exact Hin]. apply in_or_app. right. now right.
+    + exfalso. apply Hnt. now apply exposed_incl_targets.
+  - split; [|reflexivity]. split; [exact ND|]. split; [constructor|]. intros t [].
+Qed.
+
+(* ------------------------------------------------------------------ whole runs *)
+Definition mo_inv (k : ktab) (p : proc) : Prop := mshape (pc_code p) = true /\ incl (pc_cache p) k.
+
+Lemma mo_inv_step k p : finished p = false -> mo_inv k p -> mo_inv (nk k p) (np k p).
+Proof.
+  intros F [HS HI]. pose proof (step1_mo k p F HS) as H. split.
+  - eapply mo_step_shape; eauto.
+  - eapply mo_step_cache; eauto.
+Qed.
+Lemma mo_inv_other k p q : finished p = false -> mo_inv k p -> mo_inv k q -> mo_inv (nk k p) q.
+Proof.
+  intros F [HS HI] [HS' HI']. pose proof (step1_mo k p F HS) as H. split; [exact HS'|].
+  eapply incl_tran; [exact HI'|]. eapply mo_step_grow; eauto.
+Qed.
+
+Lemma ileave_grow f : forall s k a b, mo_inv k a -> mo_inv k b -> incl k (ir_k (ileave f s k a b)).
+Proof.
+  induction f as [|f IH]; intros s k a b Ha Hb; [apply incl_refl|].
+  cbn [ileave]. destruct (finished a && finished b) eqn:F; [apply incl_refl|].
+  destruct (pick s a b) eqn:P; cbn [ir_k].
+  - pose proof (pick_true _ _ _ F P) as Fa.
+    eapply incl_tran; [|apply IH; [now apply mo_inv_step|now apply mo_inv_other]].
+    eapply mo_step_grow. apply step1_mo; [exact Fa|apply Ha].
+  - pose proof (pick_false _ _ _ F P) as Fb.
+    eapply incl_tran; [|apply IH; [now apply mo_inv_other|now apply mo_inv_step]].
+    eapply mo_step_grow. apply step1_mo; [exact Fb|apply Hb].
+Qed.
+
+Lemma ileave_added f : forall s k a b, mo_inv k a -> mo_inv k b ->
+  forall x, In x (ir_k (ileave f s k a b)) -> In x k \/ In x (rtp a) \/ In x (rtp b).
+Proof.
+  induction f as [|f IH]; intros s k a b Ha Hb x; [now left|].
+  cbn [ileave]. destruct (finished a && finished b) eqn:F; [now left|].
+  destruct (pick s a b) eqn:P; cbn [ir_k]; intros Hx.
+  - pose proof (pick_true _ _ _ F P) as Fa. pose proof (step1_mo k a Fa (proj1 Ha)) as HM.
+    apply IH in Hx; [|now apply mo_inv_step|now apply mo_inv_other].
+    rewrite (unfinished_rtp a Fa). destruct Hx as [Hx|[Hx|Hx]]; auto.
+    + apply (mo_step_added _ _ _ _ HM) in Hx as [Hx|Hx]; auto.
+    + right. left. eapply mo_step_rtp; eauto.
+  - pose proof (pick_false _ _ _ F P) as Fb. pose proof (step1_mo k b Fb (proj1 Hb)) as HM.
+    apply IH in Hx; [|now apply mo_inv_other|now apply mo_inv_step].
+    rewrite (unfinished_rtp b Fb). destruct Hx as [Hx|[Hx|Hx]]; auto.
+    + apply (mo_step_added _ _ _ _ HM) in Hx as [Hx|Hx]; auto.
+    + right. right. eapply mo_step_rtp; eauto.
+Qed.
+
+Lemma ileave_reached f : forall s k a b, mo_inv k a -> mo_inv k b -> cost2 k a b <= f ->
+  forall t, In t (rtp a) \/ In t (rtp b) -> In t (ir_k (ileave f s k a b)).
+Proof.
+  induction f as [|f IH]; intros s k a b Ha Hb HC t Ht.
+  - exfalso. destruct (finished a && finished b) eqn:F.
+    + apply andb_true_iff in F as [Fa Fb]. rewrite (finished_rtp a Fa), (finished_rtp b Fb) in Ht. tauto.
+    + destruct (cost2_zero_finished _ _ _ _ HC F) as [m E]. discriminate.
+  - cbn [ileave]. destruct (finished a && finished b) eqn:F.
+    + exfalso. apply andb_true_iff in F as [Fa Fb]. rewrite (finished_rtp a Fa), (finished_rtp b Fb) in Ht. tauto.
+    + destruct (pick s a b) eqn:P; cbn [ir_k].
+      * pose proof (pick_true _ _ _ F P) as Fa. pose proof (step1_mo k a Fa (proj1 Ha)) as HM.
+        pose proof (step1_cost k a Fa) as H1.
+        assert (HC' : cost2 (nk k a) (np k a) b <= f) by (unfold cost2 in *; lia).
+        pose proof (mo_inv_step k a Fa Ha) as Ha'. pose proof (mo_inv_other k a b Fa Ha Hb) as Hb'.
+        rewrite (unfinished_rtp a Fa) in Ht. destruct Ht as [Ht|Ht].
+        -- apply (mo_step_reached _ _ _ _ (proj2 Ha) HM) in Ht as [Ht|Ht].
+           ++ now apply (ileave_grow f _ _ _ _ Ha' Hb').
+           ++ apply IH; auto.
+        -- apply IH; auto.
+      * pose proof (pick_false _ _ _ F P) as Fb. pose proof (step1_mo k b Fb (proj1 Hb)) as HM.
+        pose proof (step1_cost k b Fb) as H1.
+        assert (HC' : cost2 (nk k b) a (np k b) <= f) by (unfold cost2 in *; lia).
+        pose proof (mo_inv_step k b Fb Hb) as Hb'. pose proof (mo_inv_other k b a Fb Hb Ha) as Ha'.
+        rewrite (unfinished_rtp b Fb) in Ht. destruct Ht as [Ht|Ht].
+        -- apply IH; auto.
+        -- apply (mo_step_reached _ _ _ _ (proj2 Hb) HM) in Ht as [Ht|Ht].
+           ++ now apply (ileave_grow f _ _ _ _ Ha' Hb').
+           ++ apply IH; auto.
+Qed.
+
+Lemma ileave_nodup f : forall s k a b, mo_inv k a -> mo_inv k b ->
+  ir_st (ileave f s k a b) = false -> NoDup k -> NoDup (ir_k (ileave f s k a b)).
+Proof.
+  induction f as [|f IH]; intros s k a b Ha Hb HS ND; [exact ND|].
+  cbn [ileave] in *. destruct (finished a && finished b) eqn:F; [exact ND|].
+  destruct (pick s a b) eqn:P; cbn [ir_k ir_st] in *; apply orb_false_iff in HS as [HL HS].
+  - pose proof (pick_true _ _ _ F P) as Fa. pose proof (step1_mo k a Fa (proj1 Ha)) as HM.
+    apply IH; [now apply mo_inv_step|now apply mo_inv_other|exact HS|].
+    eapply mo_step_landed; eauto.
+  - pose proof (pick_false _ _ _ F P) as Fb. pose proof (step1_mo k b Fb (proj1 Hb)) as HM.
+    apply IH; [now apply mo_inv_other|now apply mo_inv_step|exact HS|].
+    eapply mo_step_landed; eauto.
+Qed.
+
+(* a process alone never stacks *)
+Lemma ileave_alone_nostack f : forall s k a b, finished b = true -> mshape (pc_code a) = true ->
+  solo_inv k a -> ir_st (ileave f s k a b) = false.
+Proof.
+  induction f as [|f IH]; intros s k a b Fb HS HI; [reflexivity|].
+  cbn [ileave]. rewrite Fb, andb_true_r. destruct (finished a) eqn:Fa; [reflexivity|].
+  rewrite (pick_b_finished s a b Fa Fb). cbn [ir_st].
+  pose proof (step1_mo k a Fa HS) as HM.
+  destruct (mo_step_solo _ _ _ _ HM HI) as [HI' HL]. rewrite HL. cbn [orb].
+  apply IH; auto. eapply mo_step_shape; eauto.
+Qed.
